@@ -103,6 +103,10 @@ def cases(ctx):
     for acc in ACCURACIES:
         for sig in ("zero", "par>perp", "none"):
             out.append({"kind": "linear2d", "acc": acc, "sig": sig, "q0": _q0s(ctx)[1]})
+    for what in DATA_KINDS:
+        for sel in ("all", "masked"):
+            for q0 in _q0s(ctx):
+                out.append({"kind": "datamixin", "what": what, "select": sel, "q0": q0 * 10})
     return out
 
 
@@ -568,6 +572,197 @@ def run_linear2d(case, ctx, r):
                dict(fk, clause="raises", exception=type(exc).__name__))
 
 
+# ----------------------------------------------------------------------------------------------
+# the resolution DirectModel builds from a data object has the support and weights of the data's own widths
+
+DATA_KINDS = ["dx-zero", "dx-positive", "dx-mixed", "dx-positive-on-excluded-only", "dx-none",
+              "slit-length", "slit-width", "slit-both", "slit-zero", "slit-mixed",
+              "2d-positive", "2d-mixed", "2d-zero", "2d-none"]
+
+
+def run_datamixin(case, ctx, r):
+    """
+    DirectModel(data, model).resolution is compared with a resolution object constructed directly from the raw
+    points the data object selects (qmin <= x <= qmax, mask == 0) and their own widths: same calculated q, same
+    smeared theory; and the support / weight clauses are applied to it with the data's widths.
+    """
+    from sasmodels import resolution, resolution2d
+    from sasmodels.data import Data1D, Data2D
+    from sasmodels.direct_model import DirectModel, call_kernel
+    what, sel, q0 = case["what"], case["select"], case["q0"]
+    fk = {"class": "DirectModel", "what": what, "select": sel, "qcalc": "default"}
+    two_d = what.startswith("2d")
+    J = None
+    if not two_d:
+        model = build.model("sphere")
+        q = H.qgrid("log", 14, q0)
+        n = len(q)
+        keep = np.ones(n, bool)
+        data = Data1D(x=q.copy())
+        data.dxl = data.dxw = None
+        if sel == "masked":
+            data.mask = np.zeros(n, int)
+            data.mask[[2, 7]] = 1
+            data.qmin, data.qmax = q[1], q[-2]
+            keep = (q >= q[1]) & (q <= q[-2]) & (data.mask == 0)
+        dx = dxl = dxw = None
+        if what == "dx-zero":
+            dx = np.zeros(n)
+        elif what == "dx-positive":
+            dx = 0.1 * q
+        elif what == "dx-mixed":
+            dx = H.pinhole_sigma("mixed", q)
+            dx[3] = 0.3 * q[3]
+        elif what == "dx-positive-on-excluded-only":
+            dx = np.where(keep, 0.0, 0.1 * q) if sel == "masked" else np.zeros(n)
+        elif what == "slit-length":
+            dxl = np.full(n, 0.9 * q[4])
+        elif what == "slit-width":
+            dxw = np.full(n, 0.5 * q[1])
+        elif what == "slit-both":
+            dxl, dxw = np.full(n, 0.9 * q[4]), np.full(n, 0.2 * q[1])
+        elif what == "slit-zero":
+            dxl, dxw = np.zeros(n), np.zeros(n)
+        elif what == "slit-mixed":
+            dxl = np.where(np.arange(n) % 2 == 0, 0.0, 0.9 * q[4])
+            dxw = np.where(np.arange(n) % 3 == 0, 0.2 * q[1], 0.0)
+        data.dx = None if dx is None else dx.copy()
+        data.dxl = None if dxl is None else dxl.copy()
+        data.dxw = None if dxw is None else dxw.copy()
+        qs = q[keep]
+        desc = ("DirectModel(Data1D(x=log(q0=%r, n=14), %s%s), sphere).resolution"
+                % (q0, what, ", mask on points 2,7 and qmin/qmax excluding the end points" if sel == "masked" else ""))
+        calc = _construct(r, fk, desc, lambda: DirectModel(data, model, cutoff=0.0))
+        if calc is None:
+            return
+        res = calc.resolution
+        J = Judge(r, fk, desc)
+        # reference object and documented windows from the selected raw points
+        if what.startswith("dx"):
+            ws = np.zeros(len(qs)) if dx is None else dx[keep]
+            positive = bool(np.any(ws > 0))
+            ref = resolution.Pinhole1D(qs.copy(), ws.copy()) if positive else resolution.Perfect1D(qs.copy())
+            windows = [H.pinhole_window(qs[i], ws[i]) for i in range(len(qs))]
+            zero = ws == 0
+            allowed, cancel = np.zeros(len(qs)), None
+            expect = "Pinhole1D" if positive else "Perfect1D"
+        else:
+            Ls = np.zeros(len(qs)) if dxl is None else dxl[keep]
+            Ws = np.zeros(len(qs)) if dxw is None else dxw[keep]
+            positive = True
+            ref = resolution.Slit1D(qs.copy(), q_length=None if dxl is None else Ls.copy(),
+                                    q_width=None if dxw is None else Ws.copy())
+            windows = [H.slit_window(qs[i], Ls[i], Ws[i]) for i in range(len(qs))]
+            zero = (Ls == 0) & (Ws == 0)
+            x0 = float(np.min(ref.q_calc))
+            allowed = np.zeros(len(qs))
+            for i in range(len(qs)):
+                if Ws[i] > 0 and qs[i] - Ws[i] < x0 * (1 + 1e-12):
+                    frac = min(1.0, x0 / Ws[i])
+                    allowed[i] = min(1.0, x0 / Ls[i]) * min(1.0, frac + 2.0 / 61.0) if Ls[i] > 0 else frac
+            cancel = np.maximum(np.where(Ls > 0, ((qs + Ws) / np.where(Ls > 0, Ls, 1.0)) ** 2, 0.0),
+                                np.where(Ws > 0, (qs + Ws) / np.where(Ws > 0, Ws, 1.0), 0.0))
+            expect = "Slit1D"
+        got_name = type(res).__name__
+        qc, qr = np.asarray(res.q_calc, float), np.asarray(ref.q_calc, float)
+        if expect != "Perfect1D" and got_name != expect:
+            J.bad("resolution-choice", "data has positive widths on selected points (%s) but DirectModel built %s, "
+                  "expected %s" % (_fmt(ws if what.startswith("dx") else Ls + Ws), got_name, expect))
+        if qc.shape != qr.shape or not np.array_equal(np.sort(qc), np.sort(qr)):
+            J.bad("resolution-qcalc", "resolution.q_calc (%d points, %r..%r) differs from that of %s built from the "
+                  "selected points and their widths (%d points, %r..%r)"
+                  % (len(qc), qc.min(), qc.max(), expect, len(qr), qr.min(), qr.max()))
+        pars = {"radius": 0.35 / q0, "sld": 2.0, "sld_solvent": 5.5, "scale": 1.0, "background": 0.0}
+        with warnings.catch_warnings():
+            warnings.simplefilter("ignore")
+            got = np.asarray(calc(**pars), float)
+            theory = np.asarray(call_kernel(model.make_kernel([qr]), pars), float)
+            want = np.asarray(ref.apply(theory), float)
+        if got.shape != want.shape or np.any(np.abs(got - want) > 1e-12 * np.abs(want)):
+            k = int(np.argmax(np.abs(got - want))) if got.shape == want.shape else 0
+            J.bad("resolution-apply", "DirectModel value at selected point %d (q=%r) is %r, but smearing the theory with "
+                  "%s built from the data's own widths gives %r" % (k, qs[k], got[k] if got.shape == want.shape else got.shape,
+                                                                    expect, want[k]))
+        # support / weights of the object DirectModel built, judged with the data's widths
+        if hasattr(res, "weight_matrix"):
+            _judge_matrix(r, dict(fk), desc, res, qs, zero, windows, allowed, q0, cancel)
+        else:
+            if np.any(~zero):
+                i = int(np.argmax(~zero))
+                J.bad("support", "selected point %d (q=%r) has window [%r, %r] but the resolution is %s with q_calc = q"
+                      % (i, qs[i], windows[i][0], windows[i][1], got_name), end="both")
+            r.ok(nt=int(np.sum(~zero)), n=len(qs), outcome="datamixin-perfect")
+        r.branch("datamixin:" + what)
+        return
+    # ---- 2-D
+    model = build.model("cylinder")
+    qx, qy = _points2d(q0)
+    qrr = np.sqrt(qx ** 2 + qy ** 2)
+    n = len(qx)
+    data_kw = {}
+    if what == "2d-positive":
+        a, b = _sig2d("par>perp", qrr)
+    elif what == "2d-mixed":
+        a, b = _sig2d("mixed", qrr)
+    elif what == "2d-zero":
+        a, b = _sig2d("zero", qrr)
+    else:
+        a = b = None
+    data = Data2D(x=qx.copy(), y=qy.copy(), dx=None if a is None else a.copy(), dy=None if b is None else b.copy())
+    keep = np.ones(n, bool)
+    if sel == "masked":
+        data.mask = np.zeros(n, bool)
+        data.mask[[1, 5, 13]] = True
+        data.qmin, data.qmax = 0.5 * q0, 5.0 * q0       # excludes the outer ring (7 q0)
+        keep = (~data.mask) & (qrr >= data.qmin) & (qrr <= data.qmax)
+    acc = "med"
+    data.accuracy = acc
+    desc = ("DirectModel(Data2D(rings q0=%r and 7 q0, %s%s, accuracy=%r), cylinder).resolution"
+            % (q0, what, ", mask on points 1,5,13 and qmax excluding the outer ring" if sel == "masked" else "", acc))
+    calc = _construct(r, fk, desc, lambda: DirectModel(data, model, cutoff=0.0))
+    if calc is None:
+        return
+    J = Judge(r, fk, desc)
+    res = calc.resolution
+    sub = Data2D(x=qx[keep].copy(), y=qy[keep].copy(), dx=None if a is None else a[keep].copy(),
+                 dy=None if b is None else b[keep].copy())
+    with warnings.catch_warnings():
+        warnings.simplefilter("ignore")
+        with np.errstate(all="ignore"):
+            ref = resolution2d.Pinhole2D(data=sub, index=None, nsigma=3.0, accuracy=acc)
+    cx, cy = [np.asarray(v, float) for v in res.q_calc]
+    rx, ry = [np.asarray(v, float) for v in ref.q_calc]
+    if cx.shape != rx.shape or not (np.allclose(cx, rx, rtol=1e-13, atol=0) and np.allclose(cy, ry, rtol=1e-13, atol=0)):
+        J.bad("resolution-qcalc", "resolution.q_calc (%d points) differs from that of Pinhole2D built from the %d selected "
+              "points and their widths (%d points)" % (len(cx), int(keep.sum()), len(rx)))
+    elif (a is not None) != (getattr(res, "q_calc_weights", None) is not None):
+        J.bad("resolution-choice", "data %s dqx/dqy but the resolution %s sampling weights"
+              % ("has" if a is not None else "has no", "has no" if a is not None else "has"))
+    else:
+        pars = {"radius": 0.2 / q0, "length": 0.9 / q0, "theta": 60.0, "phi": 25.0, "scale": 1.0, "background": 0.0}
+        with warnings.catch_warnings():
+            warnings.simplefilter("ignore")
+            got = np.asarray(calc(**pars), float)
+            theory = np.asarray(call_kernel(model.make_kernel([rx, ry]), pars), float)
+            want = np.asarray(ref.apply(theory), float)
+        if got.shape != want.shape or np.any(np.abs(got - want) > 1e-12 * np.abs(want)):
+            J.bad("resolution-apply", "DirectModel 2-D values differ from smearing the theory with Pinhole2D built from the "
+                  "data's own widths: %s vs %s" % (got[:3], want[:3]))
+        if a is not None:
+            # every selected point with a positive width must own a cloud that reaches +-2.25 sigma
+            nb = len(cx) // int(keep.sum())
+            ccx, ccy = cx.reshape(nb, -1), cy.reshape(nb, -1)
+            sa, sb = a[keep], b[keep]
+            ext = np.hypot(ccx - ccx.mean(axis=0), ccy - ccy.mean(axis=0)).max(axis=0)
+            need = 2.25 * np.maximum(sa, sb)
+            if np.any(ext < need * (1 - 1e-9) - 1e-9 * qrr[keep]):
+                i = int(np.argmax(need - ext))
+                J.bad("support", "selected point %d (sigma %r, %r): sampling cloud extends %r, expected >= %r"
+                      % (i, sa[i], sb[i], ext[i], need[i]))
+    r.ok(nt=int(keep.sum()) if a is not None else 0, n=int(keep.sum()), outcome="datamixin-2d", trans=2)
+    r.branch("datamixin:" + what)
+
+
 def run_case(case, ctx):
     np.set_printoptions(legacy="1.25")     # plain floats in failure details
     r = R()
@@ -582,6 +777,8 @@ def run_case(case, ctx):
         run_linear(case, ctx, r)
     elif kind == "linear2d":
         run_linear2d(case, ctx, r)
+    elif kind == "datamixin":
+        run_datamixin(case, ctx, r)
     else:
         raise HarnessError("unknown case kind %r" % kind)
     return r
@@ -602,5 +799,7 @@ def finish(ctx, report):
     for w in ("perfect", "pinhole", "slit-length", "slit-both"):
         report.require("linear:" + w, 1, "DirectModel linearity")
     report.require("linear:2d-par>perp", 4, "DirectModel 2-D linearity")
+    for w in DATA_KINDS:
+        report.require("datamixin:" + w, 4, "resolution built by DirectModel compared with the data's own widths")
     if report.nt < 1000:
         report.vacuous.append("only %d non-trivial data points" % report.nt)
